@@ -36,6 +36,9 @@ func gen(r *sim.Rng, tier string) *sim.Case {
 			n = r.Range(13, 17) // rare large instance: 2^17 subsets are still enumerable
 		}
 		wdom := []int{3, 6, 12, 30}[r.N(4)] // small domains: many equal weights and values
+		if r.Pct(4) {
+			wdom = []int{300, 2000, 5000}[r.N(3)] // rare: big weights, big limits
+		}
 		vdom := []int{2, 5, 20}[r.N(3)]
 		sum := 0
 		for i := 0; i < n; i++ {
